@@ -5,13 +5,14 @@ import os
 
 PROP = {
     "bin": "c01",
-    "coq_targets": ["theories/Isa/C01Check", "theories/Isa/X86Proofs", "theories/Isa/X86Tie"],
+    "coq_targets": ["theories/Isa/C01Check", "theories/Isa/X86Proofs", "theories/Isa/X86Tie", "theories/Isa/X86SimMem", "theories/Isa/X86SimStack"],
     "n": {"quick": int(os.environ.get("C01_N", "2000")), "thorough": 40000},
     "theorems": ["reg_get_set_correct", "reg_set_prefix_refuted", "of_add_correct", "of_sub_correct", "cf_sub_correct",
                  "cf_add_correct", "sf_correct", "set_zf_den", "set_sf_den", "set_cf_den", "set_of_den", "lift_mov_reg_reg_correct",
                  "add_reg_ops_correct", "sub_reg_ops_correct", "cmp_reg_ops_correct", "logic_reg_ops_correct", "incdec_reg_ops_correct",
                  "il_run_one_block", "add_sim", "sub_sim", "cmp_sim", "logic_sim", "incdec_sim", "mov_sim", "tie_transfers",
-                 "ck_tie_is_syntactic_tie", "cc_condition_correct", "setcc_sim", "movx_sim", "addr_expr_correct", "lea_sim"],
+                 "ck_tie_is_syntactic_tie", "cc_condition_correct", "setcc_sim", "movx_sim", "addr_expr_correct", "lea_sim", "mem_load_spec", "mem_store_spec", "mov_load_sim", "mov_store_sim", "add_load_sim", "sub_load_sim",
+                 "cmp_load_sim", "logic_load_sim", "movx_load_sim", "add_rmw_sim", "sub_rmw_sim", "tie_transfers_when", "logic_rmw_sim", "cmp_mem_sim", "incdec_rmw_sim", "push_sim", "pop_sim", "push_mem_sim", "pop_mem_sim"],
     "rule": "instruction encodings enumerated from the opcode tables of harness/src/bin/c01.rs (mnemonic x operand size 8/16/32/64(/128) x "
             "register/memory/immediate forms x legacy high-byte registers x rep/repne x both modes, plus 412 operand-aliasing forms -- same-register pairs, sub-register-of-destination sources, base/index = destination -- and 136 address-size-prefixed forms (amd64 0x67 32-bit addressing for lea/mov/add, x86 0x67 16-bit addressing for lea) -- that are visited first, 1 in 3, so the quick tier contains all 548 of them; about 5 800 forms); per memory operand the six states cycle through plain / wrapping (index with the top address bit set, base solved modulo 2^asz so that base+index*scale+disp wraps 2^16, 2^32 or 2^64 into a scratch page) / boundary-index scenarios, prefixed registers carry garbage above the address width, lea sums are placed at wrap-by-a-little, 2^asz-1 and 2^(asz-1), visited in a "
             "seed-dependent permutation, wrapping around with fresh operands/states when n exceeds the table; each encoding with 6 "
